@@ -278,6 +278,55 @@ def oracle_history(c, out):
     return bad
 
 
+def thread_expect(f, a):
+    """The answer the board description gives for one lookup (None: the property promises nothing)."""
+    if f == "chip":
+        x, y, rx, ry = a
+        e = near_board_eth(x, y, rx, ry)
+        return [x - e[0], y - e[1]]
+    if f == "local":
+        x, y, w, h, rx, ry = a
+        e = near_board_eth(x, y, rx, ry)
+        return [e[0] % w, e[1] % h]
+    x, y, l, rx, ry = a
+    return near_board_eth(x, y, rx, ry) != near_board_eth(x + LINK_VEC[l][0], y + LINK_VEC[l][1], rx, ry)
+
+
+def gen_threads(rng, tier):
+    """A search, not a proof: a few threads in tight loops on different chips with a 1 us switch interval."""
+    calls = []
+    for _ in range(4):
+        mine = []
+        for _ in range(6):
+            rx, ry = rng.choice([(0, 0), (4, 0), (3, 5)])
+            x, y = rng.randrange(24), rng.randrange(24)
+            for f, a in (("chip", [x, y, rx, ry]), ("fpga", [x, y, rng.randrange(6), rx, ry]),
+                         ("local", [x, y, 24, 24, rx, ry]), ("fpga", [x, y, rng.randrange(6), rx, ry])):
+                mine.append([f, a, thread_expect(f, a)])
+        calls.append(mine)
+    return [dict(k="threads", calls=calls, seconds=1.5 if tier == "quick" else 20, cls="threads")]
+
+
+def oracle_threads(c, out):
+    if out[0] != "ok":
+        return [("threads", "the threaded search ended with %r" % (out,))]
+    bad = []
+    flat = [(f, a, e) for mine in c["calls"] for f, a, e in mine]
+    for (f, a, e), (f2, a2, ref) in zip(flat, out[1]):            # the single-threaded pass at the start
+        sub = oracle_point(dict(f=f, args=a), ["ok", ref])
+        bad += [("threads-" + k, w + " (single-threaded, before the threads start)") for k, w in sub]
+    for f, a, r, ref, how in out[2]:
+        e = thread_expect(f, a)
+        bad.append(("threads-" + dict(chip="chip_coord", local="local_eth", fpga="fpga_iff")[f],
+                    "threads calling the lookup functions concurrently for different chips (%s): %s%r returned "
+                    "%r; the board description gives %s and the same call returned %r single-threaded"
+                    % (how, dict(chip="spinn5_chip_coord", local="spinn5_local_eth_coord",
+                                             fpga="spinn5_fpga_link")[f], tuple(a), r,
+                       ("an FPGA link" if e else "None") if f == "fpga" else tuple(e), ref)))
+        break
+    return bad
+
+
 def gen_histories(rng, tier):
     """Sequences of calls in one interpreter: generators of spinn5_eth_coords cut at every position, `in`
     tests, search loops with break, interleaved live generators with equal and different arguments, each
@@ -377,6 +426,9 @@ def gen_cases(rng, tier):
             else:
                 rx, ry = rng.randint(-30, 60), rng.randint(-30, 60)
             cases.append(dict(k="machine", w=w, h=h, rx=rx, ry=ry, cls="ragged"))
+    th = gen_threads(rng, tier)
+    cases += th
+    cases += [dict(k="point", f=f, args=a, cls="point") for mine in th[0]["calls"] for f, a, e in mine]   # model too
     cases += gen_histories(rng, tier)
     # single calls: far, negative and degenerate arguments
     n_pt = 4000 if big else 400
@@ -510,7 +562,7 @@ def run(chk, args):
     else:
         cases = gen_cases(chk.rng, chk.tier)
     # implementation
-    cost = lambda c: c["w"] * c["h"] if c["k"] == "machine" else (3000 if c["k"] == "dimsrange" else
+    cost = lambda c: c["w"] * c["h"] if c["k"] == "machine" else (13000 if c["k"] == "threads" else 3000 if c["k"] == "dimsrange" else
                                                                   (len(c["ops"]) if c["k"] == "history" else 1))
     chunks, cur, acc = [], [], 0
     for c in cases:
@@ -537,6 +589,11 @@ def run(chk, args):
         elif c["k"] == "point":
             bad = oracle_point(c, o)
             nontrivial = c["cls"] == "point"
+        elif c["k"] == "threads":
+            bad = oracle_threads(c, o)
+            if o[0] == "ok":
+                chk.count("threaded-search-calls", o[3])
+            nontrivial = True
         elif c["k"] == "history":
             chk.count("history-operations", len(c["ops"]))
             for op in c["ops"]:
@@ -647,7 +704,14 @@ def run(chk, args):
         "dimensions, link numbers outside 0..5; call histories in one interpreter (spinn5_eth_coords generators cut at "
         "every position by next()/break, `in` tests, interleaved live generators with equal and different arguments, "
         "each followed by full enumerations; repeated lookups of one chip under different sizes and roots), every "
-        "call judged on its own; board counts %s. non-trivial = machine at least one board wide and "
+        "call judged on its own; a threaded SEARCH (4 threads calling spinn5_chip_coord / spinn5_fpga_link / "
+        "spinn5_local_eth_coord for different chips in tight loops with a 1 us switch interval for a few seconds, "
+        "then two threads with one preemption forced at every line of the functions by sys.settrace from outside; "
+        "every result compared with the answer computed beforehand and with the single-threaded result; the same "
+        "calls are compared with the model single-threaded): it can exhibit a failing schedule, a pass proves nothing "
+        "about thread safety -- what decides is the translation / inventory obligation (tools/dump_c19.py and py2v "
+        "fail on any `global` statement, new module-level mutable object, decorator or store into an object in "
+        "rig/geometry.py); board counts %s. non-trivial = machine at least one board wide and "
         "high, in-domain single call, or a positive multiple of 3 boards; distinct by hash of the input"
         % ((("96x12/60x60", "every w,h in 1..40") if chk.tier != "quick" else ("48x24/36x36", "38 sizes in 1..40"))
            + ("-12..90000 one by one, every multiple of 3 up to 3*10^6 in ranges, samples to 3*2^52" if chk.tier != "quick"
